@@ -15,12 +15,15 @@ CONSTANTS
   FormAlphabet = {"a","dot","qm"}
   FormLen = 2
   FormShapes = {"s2m","l2m","l3m"}
-  Forms = {"item","list","array","data","col_item","col_list","col_array","col_data","col_data_str","col_item_mask","col_list_mask","col_array_mask","col_data_mask","col_data_listmask"}
+  Forms = {"item","list","array","data","col_item","col_list","col_array","col_data","col_data_str","col_item_mask","col_list_mask","col_array_mask","col_data_mask","col_data_listmask","array_wide","array_view","array_be","data_wide","data_view","col_array_wide","col_data_be","col_array_mask_i64","col_data_mask_i64","col_data_wide_mask_i64"}
   FormFillers = {"same","cross","junk"}
   Modes = {"ctor","setitem"}
+  SibAlphabet = {"a","A"}
+  SibLen = 2
 CHECK_DEADLOCK FALSE
 INVARIANT InvDomain
 INVARIANT InvFormStores
+INVARIANT InvEqDemand
 INVARIANT InvNoUnknownLoss
 INVARIANT InvKnownBadTight
 INVARIANT InvRefCodecExists
